@@ -1212,6 +1212,14 @@ impl Server {
             }
             
             match self.process_command_parts(&cmd_parts, db_index) {
+                Ok(RespFrame::NoResponse) => {
+                    // A blocking pop that found nothing to pop: inside a transaction it
+                    // does not block but yields nil. Drop the registration it made
+                    // (under the transaction's dummy connection id), which would
+                    // otherwise swallow the next element pushed to the key.
+                    let _ = self.blocking_manager.unregister_client(db_index, 0);
+                    results.push(RespFrame::null_array());
+                }
                 Ok(response) => results.push(response),
                 Err(e) => {
                     results.push(RespFrame::error(e.to_string()));
